@@ -865,8 +865,10 @@ def gen_history(rng, nops: int, p_bnd: float = 0.06, p_reserved: float = 0.03) -
             if d[:len(s)] == s:
                 continue
             wm = rng.random() < 0.35
-            if cwd and d[:len(cwd)] != cwd:
-                cwd, cwds = [], "/"     # HDF5 checks an absolute destination relative to the calling group
+            if cwd and (d[:len(cwd)] != cwd or (not wm and mir.nodes.get(tuple(s)) != "G")):
+                # HDF5 checks an absolute destination relative to the calling group; the wrapper
+                # itself passes the absolute sidecar paths of a dataset to the calling group's copy
+                cwd, cwds = [], "/"
             op = ["copy", cwds, _spell(rng, cwd, s), "/".join(d[len(cwd):]) if cwd else _spell(rng, cwd, d), wm]
             upd = lambda: mir.cp(s, d, with_meta=not wm)  # noqa: E731
         elif r < 0.49:
